@@ -200,7 +200,8 @@ def build_request(rp, req):
         import c16
         variant = req[2]
         far = 2 ** 64 - 1
-        princ = ['alice'] if variant != 'wrong-principal' else ['carol']
+        # no-principals: a certificate naming nobody does not meet the principals="alice" demanded by the CA line
+        princ = [] if variant == 'no-principals' else ['alice'] if variant != 'wrong-principal' else ['carol']
         after, before = (0, far) if variant != 'expired' else (0, 1000)
         ca = _AsKey('ca') if variant != 'other-ca' else _AsKey('kx')
         blob = c16.build_cert(ca, _AsKey('ka2'), 1, princ, after, before)
@@ -292,9 +293,10 @@ def alphabet(level):
             a.append(('kbdresp', u, 'right'))
             a.append(('kbdresp', u, 'wrong'))
         a.append(('kbdresp', 'alice', 'count'))
-        for var in ('good', 'expired', 'wrong-principal', 'other-ca'):
+        for var in ('good', 'expired', 'wrong-principal', 'other-ca', 'no-principals'):
             a.append(('cert', 'alice', var))
         a.append(('cert', 'bob', 'good'))
+        a.append(('cert', 'bob', 'no-principals'))
         a.append(('trunc', 'alice'))
         a.append(('trail', 'alice'))
     return a
